@@ -79,6 +79,13 @@ func modelBytesSplit(ex *Exec, st *State, fn *types.Func, args []*Val, e *ast.Ca
 	j := mk("j?", SInt)
 	st.assume(implies(sepIs1, forall([]*Term{k, j}, implies(and(inRange, ge(j, intLit(0)), lt(j, l(k))),
 		not(eq(srcAt(add(o(k), j)), sepByte))), []*Term{srcAt(add(o(k), j))})))
+	// the same fact by absolute position in the array, so that a read through
+	// any slice of the same array (and the piece's length) instantiates it
+	a := mk("a?", SInt)
+	row := sel(ex.mem(st, tByte), ex.sRef(s))
+	st.assume(implies(sepIs1, forall([]*Term{k, a}, implies(and(inRange,
+		ge(a, add(ex.sOff(s), o(k))), lt(a, add(add(ex.sOff(s), o(k)), l(k)))),
+		not(eq(sel(row, a), sepByte))), []*Term{l(k), sel(row, a)})))
 	ex.splitInfo[R.Op] = &splitInfo{off: offN, ln: lenN, n: n, src: s}
 	return []*Val{{T: rt, Term: R}}, true
 }
